@@ -244,9 +244,15 @@ PTR_TYPES = r'(MemoryAreas|Registers|Self)'
 
 def apply_rules(text, features=(), keep_unsafe=False):
     t = apply_cfg(text, features)
+    # R6: an ignored loop variable gets a name so that invariants can mention the iteration count
+    t = re.sub(r'\bfor\s+_\s+in\b', 'for verif_i in', t)
     # R2: ABI / attributes
     t = re.sub(r'extern\s+"sysv64"\s+', '', t)
-    t = re.sub(r'^[ \t]*#\[(inline[^\]]*|repr\([^\]]*\)|derive\([^\]]*\)|allow\([^\]]*\))\]\s*\n', '', t, flags=re.M)
+    def _derive(m):
+        keep = [d for d in re.split(r'\s*,\s*', m.group(2).strip()) if d in ('Copy', 'Clone')]
+        return (m.group(1) + '#[derive(' + ', '.join(keep) + ')]\n') if keep else ''
+    t = re.sub(r'^([ \t]*)#\[derive\(([^\]]*)\)\]\s*\n', _derive, t, flags=re.M)
+    t = re.sub(r'^[ \t]*#\[(inline[^\]]*|repr\([^\]]*\)|allow\([^\]]*\))\]\s*\n', '', t, flags=re.M)
     # R3: panics become obligations
     for pat, repl in ((r'\b(panic|unreachable|unimplemented)!\s*\(', 'vstd::pervasive::unreached()'),):
         m = mask_noncode(t)
@@ -267,8 +273,10 @@ def apply_rules(text, features=(), keep_unsafe=False):
         alias, expr = am.group(1), am.group(2)
         t = t.replace(am.group(0), '', 1)
         t = re.sub(r'\b%s\b' % re.escape(alias), expr, t)
-    t = re.sub(r'\*const\s+' + PTR_TYPES, r'&\1', t)
-    t = re.sub(r'\*mut\s+' + PTR_TYPES, r'&mut \1', t)
+    lt = re.search(r"\bfn\s+\w+\s*<\s*('[a-z]+)\s*>", t)
+    lts = (lt.group(1) + ' ') if lt else ''
+    t = re.sub(r'\*const\s+' + PTR_TYPES, r'&' + lts + r'\1', t)
+    t = re.sub(r'\*mut\s+' + PTR_TYPES, r'&' + lts + r'mut \1', t)
     t = re.sub(r'unsafe\s*\{\s*&\s*\*\s*([a-z_]+)\s*\}', r'\1', t)
     t = re.sub(r'unsafe\s*\{\s*&mut\s*\*\s*([a-z_]+)\s*\}', r'\1', t)
     t = re.sub(r'(&mut self(?:\.memory)?|self) as &mut MemoryAreas', lambda mm: mm.group(1), t)
@@ -336,6 +344,8 @@ def splice_fn(fn_text, spec, notes):
         clauses += '\n    decreases ' + spec['fn_decreases'].strip()
     if clauses:
         clauses += '\n  '
+    if spec.get('declonly'):
+        return header.rstrip() + ' ' + clauses.rstrip() + ';'
     if spec.get('external'):
         return ('#[verifier::external_body]\n' + header.rstrip() + ' ' + clauses + '{ unimplemented!() }')
     # textual hints (optional: a lost anchor only drops the hint)
@@ -386,7 +396,8 @@ def fn_params(header):
     m = mask_noncode(header)
     o = m.index('(')
     c = match_close(m, o, '(', ')')
-    return header[o:c + 1]
+    g = re.search(r'\bfn\s+\w+\s*(<[^>(]*>)\s*\(', m)
+    return (g.group(1) if g else '') + header[o:c + 1]
 
 
 # ---------------------------------------------------------------- template processing
@@ -425,13 +436,20 @@ def process_template(path, name=None):
     out = []
     i = 0
     impl_ctx = None
+    impl_depth = 0
+    tdepth = 0
     while i < len(lines):
         line = lines[i]
         dm = DIR_RE.match(line)
         if not dm:
-            im = re.match(r'^\s*impl\s+(?:([\w:]+)\s+for\s+)?(\w+)\s*\{', line)
-            if im:
+            ml = mask_noncode(line)
+            im = re.match(r'^\s*(?:pub\s+)?(?:impl\s+(?:([\w:]+)\s+for\s+)?|trait\s+)(\w+)\s*\{', ml)
+            if im and impl_ctx is None:
                 impl_ctx = im.group(2)
+                impl_depth = tdepth
+            tdepth += ml.count('{') - ml.count('}')
+            if impl_ctx is not None and tdepth <= impl_depth:
+                impl_ctx = None
             out.append(line)
             i += 1
             continue
@@ -441,6 +459,14 @@ def process_template(path, name=None):
             unit.tags[fname] = parse_props(props)
             i += 1
             continue
+        if d.startswith('assert-absent '):
+            mm = re.match(r'assert-absent\s+(\S+)\s*::\s*(.+?)\s*$', d)
+            try:
+                find_item(mm.group(1), mm.group(2).strip())
+            except ExtractError:
+                i += 1
+                continue
+            raise ExtractError("unsupported construct: %s :: %s exists but the unit assumes the inherited default" % (mm.group(1), mm.group(2)))
         if d.startswith('use '):
             dd, _, optstr = d.partition('|')
             mm = re.match(r'use\s+(\S+)\s*::\s*(.+?)\s*$', dd)
@@ -472,7 +498,8 @@ def process_template(path, name=None):
             fname = ipath.split('>')[-1].split()[-1]
             spec['name'] = fname
             spec['external'] = 'external' in opts
-            spec['trait_impl'] = 'traitimpl' in opts
+            spec['trait_impl'] = 'traitimpl' in opts or 'declonly' in opts
+            spec['declonly'] = 'declonly' in opts
             feats = []
             for o in opts:
                 if o == 'cfg=jit':
@@ -521,25 +548,32 @@ def process_template(path, name=None):
                 i += 1
             it = find_item(rel, ipath)
             unit.sources.add(rel)
-            t = apply_rules(it.text, feats)
+            itext = it.text
+            if spec['external'] or spec['declonly']:
+                # only the signature is used: the body is dropped (assumed contract / trait declaration)
+                mk = mask_noncode(itext)
+                itext = itext[:mk.index('{')] + '{ }' if '{' in mk else itext
+            t = apply_rules(itext, feats)
             if spec.get('rename'):
                 t = re.sub(r'\bfn\s+%s\b' % re.escape(fname), 'fn ' + spec['rename'], t, count=1)
                 fname = spec['rename']
             text = splice_fn(t, spec, unit.notes)
             out.append('// ---- extracted from %s:%d (%s)' % (rel, it.line, ipath))
             out.append(text)
-            qual = (impl_ctx + '::' + fname) if (impl_ctx and 'impl ' in ipath) else fname
+            qual = (impl_ctx + '::' + fname) if impl_ctx else fname
             rec = {'name': fname, 'qual': qual, 'props': props, 'repo': '%s:%d %s' % (rel, it.line, qual),
                    'external': spec['external'], 'path': ipath}
             unit.fns.append(rec)
+            if spec['declonly']:
+                rec['external'] = True
             if spec['external']:
                 unit.assumed.append('%s (%s) external_body with assumed contract' % (qual, rec['repo']))
             # vacuity probe
-            if spec.get('requires') and not spec['external'] and 'novac' not in opts:
+            if spec.get('requires') and not spec['external'] and not spec['declonly'] and 'novac' not in opts:
                 mh = mask_noncode(t)
                 header = t[:mh.index('{')]
                 params = fn_params(header)
-                vname = 'vac_' + (impl_ctx.lower() + '_' if (impl_ctx and 'impl ' in ipath) else '') + fname
+                vname = 'vac_' + (impl_ctx.lower() + '_' if impl_ctx else '') + fname
                 req = spec['requires'].rstrip().rstrip(',')
                 out.append('#[allow(unused_variables)] pub fn %s%s\n    requires\n%s,\n  { assert(false); }' % (vname, params, req))
                 rec['vac'] = vname
